@@ -100,6 +100,35 @@ def _expr_form(body):
         if rest is not None:
             return ast.IfExp(test=body[0].test, body=body[0].body[0].value,
                              orelse=rest)
+    # a search loop: "for x in L: if P(x): return True" then "return False"
+    # is any(P(x) for x in L); with the constants exchanged (and the test
+    # negated) it is all(..)
+    if len(body) == 2 and isinstance(body[0], ast.For) and not \
+            body[0].orelse and isinstance(body[0].target, ast.Name) and len(
+                body[0].body) == 1 and isinstance(
+                    body[0].body[0], ast.If) and not body[0].body[0].orelse \
+            and len(body[0].body[0].body) == 1 and isinstance(
+                body[0].body[0].body[0], ast.Return) and isinstance(
+                    body[1], ast.Return):
+        hit = body[0].body[0].body[0].value
+        miss = body[1].value
+        if isinstance(hit, ast.Constant) and isinstance(
+                miss, ast.Constant) and {hit.value, miss.value} == {True,
+                                                                     False} \
+                and hit.value is not miss.value:
+            test = body[0].body[0].test
+            if hit.value is True:
+                fn, elt = 'any', test
+            else:
+                fn, elt = 'all', ast.UnaryOp(op=ast.Not(), operand=test)
+            gen = ast.GeneratorExp(
+                elt=elt, generators=[ast.comprehension(
+                    target=body[0].target, iter=body[0].iter, ifs=[],
+                    is_async=0)])
+            call = ast.Call(func=ast.Name(id=fn, ctx=ast.Load()),
+                            args=[gen], keywords=[])
+            return ast.fix_missing_locations(ast.copy_location(call,
+                                                               body[0]))
     return None
 
 
@@ -2376,6 +2405,60 @@ class Inliner:
                                          n)
 
         T().visit(self.tree)
+
+        class Q(ast.NodeTransformer):
+            """any(P(x) for x in (a, b)) over a literal display of constants
+            is P(a) or P(b) (same operands, same order, same short cut; the
+            truth value is what the callers of a predicate use).  Only in
+            test positions / returns of predicates the difference between
+            True and the operand's own value could matter, so the rewrite is
+            wrapped in bool()."""
+
+            def visit_Call(self_, n):
+                n = self_.generic_visit(n)
+                if not (isinstance(n.func, ast.Name) and n.func.id in (
+                        'any', 'all') and len(n.args) == 1 and not
+                        n.keywords and isinstance(n.args[0],
+                                                  ast.GeneratorExp)):
+                    return n
+                g = n.args[0]
+                if len(g.generators) != 1 or g.generators[0].ifs or not \
+                        isinstance(g.generators[0].target, ast.Name) or not \
+                        isinstance(g.generators[0].iter,
+                                   (ast.Tuple, ast.List)):
+                    return n
+                elts = g.generators[0].iter.elts
+                if not 2 <= len(elts) <= 6 or not all(
+                        isinstance(x, ast.Constant) for x in elts):
+                    return n
+                v = g.generators[0].target.id
+                vals = [_Subst({v: x}).visit(clone(g.elt)) for x in elts]
+                op = ast.Or() if n.func.id == 'any' else ast.And()
+                b = ast.Call(func=ast.Name(id='bool', ctx=ast.Load()),
+                             args=[ast.BoolOp(op=op, values=vals)],
+                             keywords=[])
+                me.notes.append(f'{n.func.id}() over a literal at line '
+                                f'{n.lineno} written as a chain')
+                return ast.fix_missing_locations(ast.copy_location(b, n))
+
+        Q().visit(self.tree)
+
+        def unbool(e):
+            if isinstance(e, ast.Call) and isinstance(
+                    e.func, ast.Name) and e.func.id == 'bool' and len(
+                        e.args) == 1 and not e.keywords and isinstance(
+                            e.args[0], ast.BoolOp):
+                return e.args[0]
+            return e
+
+        # in a test position bool(x) is x
+        for x in ast.walk(self.tree):
+            if isinstance(x, (ast.If, ast.While, ast.IfExp, ast.Assert)):
+                x.test = unbool(x.test)
+            elif isinstance(x, ast.UnaryOp) and isinstance(x.op, ast.Not):
+                x.operand = unbool(x.operand)
+            elif isinstance(x, ast.BoolOp):
+                x.values = [unbool(v) for v in x.values]
 
     def fold_getattr(self):
         """getattr(x, 'name') with a constant identifier is x.name;
